@@ -157,7 +157,7 @@ def quick_cases(ctx):
             cases.append(mkcase(prog, gs.render(prog, L), L.wrap_rhs, stream='stress:' + lname, seed=seed))
     # C. sampled larger programs
     rng = ctx.sub_rng('sampled')
-    n_big = (700 if quick else 40000) * ctx.scale
+    n_big = (2500 if quick else 40000) * ctx.scale
     cfg = gs.GenConfig(max_equations=12, max_depth=4, max_lag=3, max_lead=2)
     cfg_deep = gs.GenConfig(max_equations=12, max_depth=4, max_lag=12, max_lead=10)
     for i in range(n_big):
@@ -171,7 +171,7 @@ def quick_cases(ctx):
         cases.append(mkcase(prog, gs.render(prog, L), L.wrap_rhs, stream='sampled:' + lname, seed=seed))
     # D. sub-streams: verbatim fragments, named periods, LHS offsets
     rng = ctx.sub_rng('sub')
-    n_sub = (150 if quick else 5000) * ctx.scale
+    n_sub = (450 if quick else 5000) * ctx.scale
     labels_s = [str(2000 + i) for i in range(12)]
     labels_i = [2000 + i for i in range(12)]
     for i in range(n_sub):
@@ -220,7 +220,7 @@ def term_cells(prog, t, locate):
     return cells
 
 
-def observe(case, rep, want_impl=True):
+def observe_(case, rep, want_impl=True):
     """Run the real code on one case: the oracle (property restated over the grammar AST) and, for T, the
     observables the model is compared with.  Returns the impl record (or None)."""
     prog = ec.j2p(case['prog'])
@@ -330,6 +330,19 @@ def observe(case, rep, want_impl=True):
     rep.dist['lags:%d' % lags] += 1
     rep.dist['leads:%d' % leads] += 1
     return impl
+
+
+def observe(case, rep, want_impl=True):
+    """`observe_` guarded: the real code doing something the harness cannot even observe (missing attribute, CODE that
+    does not parse, ...) is reported as a failing input, never as an infrastructure error."""
+    try:
+        return observe_(case, rep, want_impl)
+    except Exception as e:  # noqa: BLE001
+        import traceback
+        rep.violate(case.get('tag') or 'observation-failed',
+                    'the real code could not be observed: ' + ''.join(traceback.format_exception_only(type(e), e)).strip()[:300]
+                    + ' @ ' + traceback.format_tb(e.__traceback__)[-1].strip().replace('\n', ' ')[:200], case)
+        return None
 
 
 # ---- T: model vs implementation --------------------------------------------------------------------------------------
